@@ -323,4 +323,41 @@ MUTANTS = [
         guard.remove(&(self.process_id, 0));
 
         // Dirty shutdown'''),
+    # ------------------------------------------------------------------ C08
+    dict(id="c08-encoder-field-order", prop="C08", file="src/messages.rs", expect="C08-R1",
+         what="Parse encoder writes the parameter count as i32",
+         old='''        bytes.put_i16(parse.num_params);
+        for param in parse.param_types {''', new='''        bytes.put_i32(parse.num_params as i32);
+        for param in parse.param_types {'''),
+    dict(id="c08-hash-includes-name", prop="C08", file="src/messages.rs", expect="C08-R2",
+         what="cache key depends on the client's statement name",
+         old='''        self.query.hash(&mut hasher);''', new='''        self.name.hash(&mut hasher);
+        self.query.hash(&mut hasher);'''),
+    dict(id="c08-hash-ignores-types", prop="C08", file="src/messages.rs", expect="C08-R2",
+         what="cache key ignores parameter types",
+         old='''        self.param_types.hash(&mut hasher);''', new=''''''),
+    dict(id="c08-bind-before-ensure", prop="C08", file="src/client.rs", expect="C08-R3",
+         what="Bind appended before the statement is ensured on the server",
+         old='''                                ExtendedProtocolData::Bind { data, metadata } => {
+                                    // This is using a prepared statement
+                                    if let Some(client_given_name) = metadata {''',
+         new='''                                ExtendedProtocolData::Bind { data, metadata } => {
+                                    self.buffer.put(&data[..]);
+                                    // This is using a prepared statement
+                                    if let Some(client_given_name) = metadata {'''),
+    dict(id="c08-no-close-on-evict", prop="C08", file="src/server.rs", expect="C08-R5",
+         what="evicted statement is not closed on the server",
+         old='''                let close_bytes: BytesMut = Close::new(&evicted_name).try_into()?;
+                bytes.extend_from_slice(&close_bytes);''', new='''                let _close_bytes: BytesMut = Close::new(&evicted_name).try_into()?;'''),
+    dict(id="c08-rewrite-changes-query", prop="C08", file="src/messages.rs", expect="C08-R6",
+         what="rewrite touches more than the name",
+         old='''            PREPARED_STATEMENT_COUNTER.fetch_add(1, Ordering::SeqCst)
+        );
+        self''', new='''            PREPARED_STATEMENT_COUNTER.fetch_add(1, Ordering::SeqCst)
+        );
+        self.query = self.query.trim().to_string();
+        self'''),
+    dict(id="c08-insert-under-rewritten-name", prop="C08", file="src/client.rs", expect="C08-R4",
+         what="client map keyed by the rewritten name",
+         old='''            .insert(client_given_name, (new_parse.clone(), hash));''', new='''            .insert(new_parse.name.clone(), (new_parse.clone(), hash));'''),
 ]
